@@ -75,14 +75,21 @@ func random(args map[string]string) error {
 		ev0 := trace.Ev{"beh": h, "mode": "random"}
 		w.observe(ev0)
 		tw.Reset(ev0)
+		// a short script that follows a reset racing with a parked update: request, let the update finish, request again -
+		// all on the same member and before the clock moves
+		var script []int
+		scriptM := ""
 		for k := 0; k < nops; k++ {
 			m := members[rng.Intn(len(members))]
+			r := rng.Intn(100)
+			if len(script) > 0 {
+				m, r, script = scriptM, script[0], script[1:]
+			}
 			n := w.nodes[m]
 			ev := trace.Ev{"beh": h, "step": k + 1, "m": m, "res": "ok", "grant": []int{}}
 			p, lg, _ := tso.VerifTSO(n.alloc)
 			phys := w.rel(p)
 			lease := n.mem.GetLeadership().Check()
-			r := rng.Intn(100)
 			switch {
 			case r < 38: // Gen
 				if !lease || phys == 0 {
@@ -148,6 +155,7 @@ func random(args map[string]string) error {
 				if n.upd != nil && rng.Intn(2) == 0 {
 					// a reset racing with a parked update lands in the very millisecond the update read from the clock
 					tp = w.getClock(n)
+					script, scriptM = []int{0, 60, 0}, m // Gen, UpdSave, Gen
 				}
 				tl := []int{0, 5, int(lg) + 1}[rng.Intn(3)]
 				o := outcome()
